@@ -132,6 +132,16 @@ class SimFile:
             except Exception:
                 pass
 
+    def __del__(self):
+        # CPython finalises an unclosed file object by closing it; an error raised by that final flush is
+        # reported as "Exception ignored" and otherwise swallowed.  Model exactly that.
+        if not self._closed:
+            try:
+                self.close()
+            except BaseException as e:   # noqa
+                if isinstance(e, SimKill):
+                    self._fs.dead = True
+
     @property
     def closed(self):
         return self._closed
